@@ -3,6 +3,7 @@ package props
 import (
 	"go/token"
 	"go/types"
+	"strings"
 
 	"golang.org/x/tools/go/ssa"
 
@@ -422,6 +423,146 @@ func runC13(c *Ctx) {
 			if !bad {
 				c.R.Ok(rule, "ch.Connect", cfg, p.Pos(cn.Pos()), "failure exits return a nil client")
 			}
+		}
+		// the error of the handshake goroutines (which wraps the server's exception) is
+		// carried by every failure exit that follows it: handshake after Wait, Connect after handshake
+		carries := func(fn *ssa.Function, call ssa.CallInstruction, key string) {
+			ev := core.ErrValue(call)
+			if ev == nil {
+				c.R.Unk(rule, key, cfg, p.Pos(call.Pos()), "error result not found")
+				return
+			}
+			al := core.Aliases(fn, ev)
+			nonNil := func(b *ssa.BasicBlock, i int) bool {
+				if ifi, ok := b.Instrs[len(b.Instrs)-1].(*ssa.If); ok {
+					if ns, ok := core.NilTest(ifi, al); ok && ns == i {
+						return false
+					}
+				}
+				return true
+			}
+			hits := core.ReachAvoiding(core.PointOf(call.(ssa.Instruction)), func(in ssa.Instruction) bool {
+				_, ok := in.(*ssa.Return)
+				return ok && in.Block().Comment != "recover"
+			}, nil, nonNil)
+			bad, n := false, 0
+			for _, h := range hits {
+				ret := h.At.(*ssa.Return)
+				rv := core.ReturnErr(fn, ret)
+				if rv == nil || core.IsNilConst(rv) {
+					continue
+				}
+				n++
+				if !chainKeeps(rv, func(v ssa.Value) bool { return al[v] }, 0) {
+					bad = true
+					c.R.Bad(rule, key, cfg, p.Pos(ret.Pos()), "a failure exit that follows the failed handshake step returns an error chain that does not contain its error: a server exception (wrong password, ...) received during the handshake cannot be recovered with errors.As when e.g. the context ends at the same moment")
+				}
+			}
+			if !bad {
+				c.R.Ok(rule, key, cfg, p.Pos(call.Pos()), sprintf("%d failure exits keep the error in the chain", n))
+			}
+		}
+		if hs := p.Method(core.PkgCh, "Client", "handshake"); hs != nil {
+			for _, call := range core.Calls(hs) {
+				if f := core.CalleeFunc(call); f != nil && f.Name() == "Wait" && f.Pkg() != nil && f.Pkg().Path() == "golang.org/x/sync/errgroup" {
+					carries(hs, call, core.FuncName(hs)+"/carries")
+				}
+			}
+		}
+		if cn != nil {
+			for _, call := range core.Calls(cn) {
+				if f := core.CalleeFunc(call); f != nil && core.IsMethod(f, core.PkgCh, "Client", "handshake") {
+					carries(cn, call, "ch.Connect/carries")
+				}
+			}
+		}
+	}()
+
+	// ---- C13.params
+	rule = "C13.params"
+	c.R.Rule(rule, "query parameters exist from revision 54459 on and the Query encoder omits them below it, so Do refuses a query that carries parameters when the negotiated revision lacks them: the refusal (a test involving Query.Parameters and Feature.In(c.protocolVersion) whose failing edge returns an error) dominates the start of every goroutine of Do - it does not depend on any other option")
+	func() {
+		do := p.Method(core.PkgCh, "Client", "Do")
+		if !c.must(p, "(*ch.Client).Do", do != nil) {
+			return
+		}
+		// the In call on the feature constant FeatureParameters
+		fp, okc := constOf(p, core.PkgProto, "FeatureParameters")
+		var inBlk *ssa.BasicBlock
+		var inPos ssa.Instruction
+		for f := range core.StaticReach(do, 1) {
+			if f != do {
+				continue
+			}
+			for _, call := range core.FindCalls(f, isFeatureIn) {
+				args := call.Common().Args
+				if k, ok := core.ConstInt(args[0]); ok && okc && k == fp {
+					inBlk, inPos = call.Block(), call.(ssa.Instruction)
+				}
+			}
+		}
+		if inBlk == nil {
+			// the test may live in a helper called from Do
+			for _, call := range core.Calls(do) {
+				sf := core.StaticFn(call)
+				if sf == nil || pkgOf(sf) == nil || pkgOf(sf).Path() != core.PkgCh {
+					continue
+				}
+				for g := range core.StaticReach(sf, 2) {
+					for _, ic := range core.FindCalls(g, isFeatureIn) {
+						if k, ok := core.ConstInt(ic.Common().Args[0]); ok && okc && k == fp && inBlk == nil {
+							if _, isGo := call.(*ssa.Go); !isGo {
+								inBlk, inPos = call.Block(), call.(ssa.Instruction)
+							}
+						}
+					}
+				}
+			}
+		}
+		if inBlk == nil {
+			c.R.Bad(rule, core.FuncName(do), cfg, p.Pos(do.Pos()), "Do never tests FeatureParameters against the negotiated revision: parameters are silently dropped on older servers")
+			return
+		}
+		// head of the guard: the outermost dominating test that looks at Query.Parameters
+		head := inBlk
+		for b := inBlk.Idom(); b != nil; b = b.Idom() {
+			ifi, ok := b.Instrs[len(b.Instrs)-1].(*ssa.If)
+			if !ok {
+				break
+			}
+			if core.DependsOn(ifi.Cond, func(x ssa.Value) bool { return strings.HasSuffix(core.FieldOrigin(x, 0), "Query.Parameters") }, true) && (b.Succs[0] == head || b.Succs[1] == head) {
+				head = b
+				continue
+			}
+			break
+		}
+		bad := false
+		n := 0
+		for _, b := range do.Blocks {
+			for _, in := range b.Instrs {
+				isStart := false
+				if _, ok := in.(*ssa.Go); ok {
+					isStart = true
+				}
+				if call, ok := in.(ssa.CallInstruction); ok {
+					if f := core.CalleeFunc(call); f != nil && f.Name() == "Go" && f.Pkg() != nil && f.Pkg().Path() == "golang.org/x/sync/errgroup" {
+						isStart = true
+					}
+				}
+				if !isStart {
+					continue
+				}
+				n++
+				if !head.Dominates(b) {
+					bad = true
+					c.R.Bad(rule, core.FuncName(do), cfg, p.Pos(inPos.Pos()), sprintf("the parameters/revision refusal does not dominate the goroutine started at %s: it runs only under another condition, otherwise the query is sent with its parameters dropped", p.Pos(in.Pos())))
+				}
+			}
+		}
+		if n == 0 {
+			c.R.Unk(rule, core.FuncName(do), cfg, p.Pos(do.Pos()), "no goroutine start found in Do")
+		} else if !bad {
+			c.R.Ok(rule, core.FuncName(do), cfg, p.Pos(inPos.Pos()), sprintf("refusal dominates all %d goroutine starts", n))
 		}
 	}()
 
